@@ -182,8 +182,8 @@ func init() {
 	registerProp(&PropSpec{
 		ID:     "C19",
 		Custom: []string{"partial"},
-		Partial: []string{modPath + "/cmd/minify.minify", modPath + "/cmd/minify.run", modPath + "/cmd/minify.createTasks$fn1", modPath + "/cmd/minify.createTasks"},
-		Units:  []string{modPath + ".(*M).MinifyMimetype", modPath + ".(*M).Minify", modPath + "/cmd/minify.compilePattern", modPath + "/cmd/minify.openOutputFile"},
+		Partial: []string{modPath + "/cmd/minify.minify", modPath + "/cmd/minify.run", modPath + "/cmd/minify.createTasks$fn1", modPath + "/cmd/minify.createTasks", modPath + "/cmd/minify.fileFilter"},
+		Units:  []string{modPath + ".(*M).MinifyMimetype", modPath + ".(*M).Minify", modPath + "/cmd/minify.compilePattern", modPath + "/cmd/minify.openOutputFile", modPath + "/cmd/minify.SameFile"},
 		Notes: []string{
 			"openOutputFile under full contract: the destination is opened write-only, created and TRUNCATED (flags of the single os.OpenFile event), stdout for the empty name; run() (partial; channel operations end the verified path): whether an input has a trailing separator is decided on the name as given, not on the cleaned name",
 			"compilePattern (the --include/--exclude/--match filters) under full contract over the ghost trace: a ~pattern is compiled untouched; a glob is quoted, each rewrite consumes the previous result, the `**` rewrite (to `.*`) happens before the `*` rewrite, `?` is rewritten, and the returned regexp/error are those of regexp.Compile on the end of that pipeline",
@@ -341,7 +341,8 @@ func init() {
 			modPath + "/js.(*jsMinifier).minifyParams", modPath + "/js.(*jsMinifier).minifyExpr",
 			modPath + "/js.isUndefined", modPath + "/js.isUndefinedOrNull", modPath + "/js.toNullishExpr",
 			modPath + "/js.hasSideEffects", modPath + "/js.mergeVarDeclExprStmt", modPath + "/js.(*jsMinifier).optimizeCondExpr",
-			modPath + "/js.(*jsMinifier).hoistVars", modPath + "/js.(*jsMinifier).minifyProperty"},
+			modPath + "/js.(*jsMinifier).hoistVars", modPath + "/js.(*jsMinifier).minifyProperty",
+			modPath + "/js.optimizeStmtList", modPath + "/js.hexadecimalNumber", modPath + "/js.binaryNumber", modPath + "/js.octalNumber"},
 		Notes: []string{
 			"operator table lemmas (jstables, exhaustive ground evaluation): every entry of binaryOpPrecMap / binaryLeftPrecMap / binaryRightPrecMap / unaryOpPrecMap / unaryPrecMap of the real js/util.go equals the level the ECMAScript expression grammar gives that operator (reference/js-operators.json), no operator of the grammar is missing (a missing entry reads as the lowest level - F18 found and fixed: the logical assignment operators were missing and a&&=(b,c) lost its parentheses), nothing extra, and the dependency's OpPrec levels are ordered by binding strength",
 			"isBooleanExpr is SOUND (answers true only for expressions that evaluate to a Boolean) and endsInIf is COMPLETE (answers true for every statement whose printed form ends with an else-less if) - postconditions on the real recursive functions, proved branch by branch from ECMAScript facts that are assumed at the site where the code inspects the corresponding node form (`at ... assume [ES ...]`, listed under assumptions); the recursive calls are used through the function's own contract",
